@@ -264,7 +264,7 @@ def check(run):
     run.rule("R12.3", "every array stored into Tensor._grad is engine-owned: the copy rule of Operation.backward is verified against the worst "
              "case it must handle; no backward_var returns an input's array itself; seed / GRU / copy stores are fresh", floor=90)
     run.rule("R12.4", "cached state is returned as a gradient only by single-variable ops", floor=1)
-    r12_1(run)
-    r12_2(run)
-    r12_3(run)
+    run.do(r12_1)
+    run.do(r12_2)
+    run.do(r12_3)
     run.assume("NumPy view/copy table of sa/absint.py (fresh / view-or-fresh / same-or-fresh / out=) is the trusted base of the ownership domain")
